@@ -40,7 +40,7 @@ ASSUMPTIONS = [
 
 def run(ctx: Ctx):
   m = model(ctx)
-  for r in (r1, r2, r3, r4, r5):
+  for r in (r1, r2, r3, r4, r5, r6):
     ctx.guard(r, m)
 
 
@@ -324,12 +324,116 @@ def r5(ctx: Ctx, m):
   ctx.floor(rule, 3)
 
 
+LOSSY_EXEMPT = {
+    'FixedSizeSample': 'bounded random reservoir by specification: only size,'
+                       ' membership and reviewed-count are fixed (property C01)',
+}
+
+
+def _truncating(e: ast.AST) -> str | None:
+  for x in ast.walk(e):
+    if isinstance(x, ast.Subscript) and isinstance(x.slice, ast.Slice) and x.slice.upper is not None:
+      return f'slice {unparse(x)[:40]}'
+    if isinstance(x, ast.Call):
+      fn = unparse(x.func)
+      if fn.split('.')[-1] in ('most_common',) and (x.args or x.keywords):
+        return f'{fn}(n)'
+      if fn in ('heapq.nlargest', 'heapq.nsmallest', 'itertools.islice', 'itt.islice',
+                'mit.take', 'more_itertools.take'):
+        return fn
+  return None
+
+
+def r6(ctx: Ctx, m):
+  rule = 'R-C11-6'
+  ctx.rule(rule, 'lossless merge: merge (and the self helpers it calls) never'
+           ' stores a truncated view (bounded slice, most_common(n),'
+           ' nlargest/islice) of the combined state into the accumulator and'
+           ' never deletes accumulated entries — a partial merge must remain a'
+           ' sufficient statistic, truncation belongs in result()')
+  n = 0
+  for ci, meth in m.merge_methods:
+    if ci.name in LOSSY_EXEMPT:
+      ctx.info(rule, meth, f'{ci.name} exempt: {LOSSY_EXEMPT[ci.name]}')
+      continue
+    n += 1
+    todo = [meth]
+    seen = set()
+    problem = None
+    while todo and problem is None:
+      fi = todo.pop()
+      if fi.qualname in seen:
+        continue
+      seen.add(fi.qualname)
+      trunc_names: dict[str, str] = {}
+      for _ in range(2):
+        for x in walk_no_nested(fi.node):
+          if isinstance(x, ast.Assign) and isinstance(x.targets[0], ast.Name):
+            why = _truncating(x.value) or next(
+                (trunc_names[y.id] for y in ast.walk(x.value)
+                 if isinstance(y, ast.Name) and y.id in trunc_names), None)
+            if why:
+              trunc_names[x.targets[0].id] = why
+      for x in walk_no_nested(fi.node):
+        tgt = None
+        val = None
+        if isinstance(x, ast.Assign):
+          tgt, val = x.targets[0], x.value
+        elif isinstance(x, ast.AugAssign):
+          tgt, val = x.target, x.value
+        if tgt is not None:
+          base = tgt
+          while isinstance(base, (ast.Attribute, ast.Subscript)):
+            base = base.value
+          if isinstance(base, ast.Name) and base.id == 'self' and not isinstance(tgt, ast.Name):
+            why = _truncating(val) or next(
+                (trunc_names[y.id] for y in ast.walk(val)
+                 if isinstance(y, ast.Name) and y.id in trunc_names), None)
+            if why:
+              problem = (x, f'stores a truncated value ({why}) into `{unparse(tgt)}`')
+        if isinstance(x, ast.Delete):
+          for t in x.targets:
+            b = t
+            while isinstance(b, (ast.Attribute, ast.Subscript)):
+              b = b.value
+            if isinstance(b, ast.Name) and b.id == 'self':
+              problem = (x, f'deletes accumulated entries (`{unparse(x)}`)')
+        if isinstance(x, ast.Call) and isinstance(x.func, ast.Attribute) and x.func.attr in (
+            'pop', 'popitem', 'clear', 'remove', 'discard', 'popleft'):
+          b = x.func.value
+          while isinstance(b, (ast.Attribute, ast.Subscript)):
+            b = b.value
+          if isinstance(b, ast.Name) and b.id == 'self':
+            problem = (x, f'removes accumulated entries (`{unparse(x)[:50]}`)')
+        if isinstance(x, ast.Call):
+          callee = m.eff.resolve(x, fi)
+          if callee is not None and callee.cls is not None:
+            todo.append(callee)
+    if problem:
+      node, msg = problem
+      ctx.fail(rule, meth, node,
+               f'{ci.name}.{meth.name} {msg}: what a merge keeps is no longer a'
+               ' sufficient statistic, so the result depends on the grouping'
+               ' and order of merges', node=node)
+    else:
+      ctx.ok(rule, meth, f'{ci.name}.{meth.name} keeps everything it combined', meth.node)
+  ctx.floor(rule, 15, n)
+
+
 from mlmverif.selfcheck import B, OK  # noqa: E402
 
 _R = 'aggregates/rolling_stats.py'
 _U = 'aggregates/utils.py'
 _T = 'aggregates/retrieval.py'
 VARIANTS = [
+    B('merge-prunes-to-top-k', 'aggregates/text.py',
+      "    # TODO(b/331796958): Optimize storage consumption\n    self._state.merge(other.state)\n",
+      "    self._state.merge(other.state)\n    top_k = sorted(self._state.counter.items(), key=lambda x: (-x[1], x[0]))[: self.k]\n    self._state.counter = collections.Counter(dict(top_k))\n",
+      'R-C11-6'),
+    B('counter-merge-drops-zero-entries', _R,
+      '    self._counter.update(other.counter)\n    return self',
+      '    self._counter.update(other.counter)\n    for key in [k for k, v in self._counter.items() if not v]:\n      del self._counter[key]\n    return self',
+      'R-C11-6'),
     B('counter-merge-into-operand', _R,
       '    self._counter.update(other.counter)\n    return self',
       '    other.counter.update(self._counter)\n    self._counter = other.counter\n    return self',
